@@ -213,6 +213,9 @@ func (r *Run) N(q, th int) int {
 		n = th
 	}
 	n = int(float64(n) * r.Scale)
+	if os.Getenv("VERIF_RACE") != "" {
+		n /= 4 // the race detector slows the run down several times
+	}
 	if n < 1 {
 		n = 1
 	}
